@@ -227,6 +227,15 @@ class Machine:
         for name, g in s.m.globals.items():
             if name.startswith('@llvm.') or g.alias is not None or g.init is None: continue
             s.write_init(Ptr(s.gaddr[name], 0), g.ty, g.init)
+        # VTTs of libstdc++'s string streams (external data): an inlined destructor reads the virtual-base offset through
+        # them (vptr[-3]).  Provide a stand-in vtable whose [-3] slot holds the offset of the basic_ios subobject.
+        for name, g in s.m.globals.items():
+            if g.init is None and name.startswith('@_ZTTNSt7__cxx11') and 'stringstream' in name:
+                vboff = 112 if 'basic_ostringstream' in name else (120 if 'basic_istringstream' in name else 128)
+                vt = s.alloc(64, 'global', zero=True, name='fake-vtable-for-' + name)
+                s.store(Ptr(vt.id, 0), TInt(64), vboff)
+                o = s.objs[s.gaddr[name]]
+                for k in range(0, o.size, 8): s.store(Ptr(o.id, k), TPtr(TInt(8)), Ptr(vt.id, 24))
 
     def write_init(s, p, t, v):
         k = v.kind
@@ -684,10 +693,20 @@ class Machine:
                         return big if keep else -big
         A = s.asF(a); B = s.asF(b)
         both = A.ex is not None and B.ex is not None
-        if op == 'fadd':
-            return s.mk(A.t + B.t, A.lo + B.lo, A.hi + B.hi, max(A.ex, B.ex) if both else None, A.err + B.err)
-        if op == 'fsub':
-            return s.mk(A.t - B.t, A.lo - B.hi, A.hi - B.lo, max(A.ex, B.ex) if both else None, A.err + B.err)
+        if op in ('fadd', 'fsub'):
+            t = A.t + B.t if op == 'fadd' else A.t - B.t
+            if both and A.err == 0 and B.err == 0 and isinstance(a, SymF) and isinstance(b, SymF):
+                # difference/sum of two exact symbolic values that cancels to a constant (e.g. pin position minus shape
+                # centre under a symbolic translation): the IEEE result is that constant when it is representable
+                t2 = z3.simplify(t, som=True)
+                if z3.is_rational_value(t2):
+                    c = Fraction(t2.numerator_as_long(), t2.denominator_as_long())
+                    if Fraction(float(c)) == c and abs(c) * (1 << max(A.ex, B.ex)) <= 2 ** 53:
+                        s.stats['cancelled_to_const'] += 1
+                        return float(c)
+            if op == 'fadd':
+                return s.mk(t, A.lo + B.lo, A.hi + B.hi, max(A.ex, B.ex) if both else None, A.err + B.err)
+            return s.mk(t, A.lo - B.hi, A.hi - B.lo, max(A.ex, B.ex) if both else None, A.err + B.err)
         ma = max(abs(A.lo), abs(A.hi)); mb = max(abs(B.lo), abs(B.hi))
         if op == 'fmul':
             c = [A.lo * B.lo, A.lo * B.hi, A.hi * B.lo, A.hi * B.hi]
@@ -1249,8 +1268,14 @@ def h_icmp(s, fr, ins):
         elif pred in ('uge', 'sle'): r = b_or(X, b_not(Y))
         else: raise ExecError('icmp %s on bools' % pred)
         fr.regs[ins.res] = r; fr.ii += 1; return
+    if isinstance(a, SymF) and isinstance(ins.oty, TInt): a = FBits(a)       # double loaded through an integer-typed access
     if isinstance(a, FBits) and isinstance(b, int):
         c = sgn(b, 64)
+        if pred in ('eq', 'ne') and (c == 0 or c == -(1 << 63)):
+            # comparison with the bit pattern of +0.0 / -0.0: decidable when the value cannot be zero
+            if a.f.lo > 0 or a.f.hi < 0 or ((a.f.err == 0 or a.f.sx) and not s.check(a.f.t == 0)):
+                fr.regs[ins.res] = int(pred == 'ne'); fr.ii += 1; return
+            raise ExecError('bit-pattern comparison of a symbolic double that can be zero')
         if (pred, c) in (('slt', 0), ('sle', -1)): neg = True
         elif (pred, c) in (('sgt', -1), ('sge', 0)): neg = False
         else: raise ExecError('unsupported comparison on the bit pattern of a symbolic double')
@@ -1558,13 +1583,21 @@ def x_assert(s, fr, ins, a):
         s.stats['assert_queries'] += 1
         if s.check(z3.Not(must)):
             if os.environ.get('IRSYM_DEBUG'): print('DEBUG candidate for', msg, flush=True)
-            m = s.int_model(z3.Not(must))
+            # prefer an input for which this path is certainly the one executed (every banded floating-point comparison on it
+            # decided with margin); fall back to a model that only satisfies the over-approximated path condition
+            strict = [c for c in s.band_strict if not z3.is_true(c)]
+            m = None; bandpath = False
+            if strict and not any(z3.is_false(c) for c in strict):
+                try: m = s.int_model(z3.And(z3.Not(must), *strict))
+                except ExecError: m = None
+            if m is None:
+                m = s.int_model(z3.Not(must)); bandpath = bool(strict)
             if os.environ.get('IRSYM_DEBUG'):
                 print('DEBUG   integer model', [str(x[2]) for x in m] if m else None, flush=True)
                 if os.environ.get('IRSYM_DEBUG') == '2': print('DEBUG   formula', t, '\nPC', s.pc, flush=True)
             if m is not None:
                 band = isinstance(c, SymB) and not c.exact() and not s.check(z3.Not(t))
-                s.violations.append(('assert-band' if band else 'assert', msg, '', m))
+                s.violations.append(('assert-band' if band else ('assert-bandpath' if bandpath else 'assert'), msg, '', m))
             if not s.check(t): raise PathEnd('assert_always_fails' if m is not None else 'infeasible_over_integers')
         s.add_pc(t)
     elif not (c & 0xffffffff):
@@ -1595,6 +1628,8 @@ def x_end_catch(s, fr, ins, a):
     if isinstance(dtor, FnPtr):
         # run the thrown object's destructor, then release the exception memory, then continue after this call
         f = s.m.funcs.get(s.alias.get(dtor.name, dtor.name))
+        if (f is None or not f.is_def) and re.match(r'^@_ZNSt(13runtime_error|11logic_error|12out_of_range|16invalid_argument|12domain_error|9exception)D[012]Ev$', dtor.name):
+            s.free(ptr); return None          # libstdc++ exception object: nothing owned in the model
         if f is None or not f.is_def: raise ExecError('exception destructor %s not defined' % dtor.name)
         nf = Frame(f); nf.regs[f.params[0][1]] = ptr
         nf.on_ret = lambda: s.free(ptr)
@@ -1726,14 +1761,49 @@ EXTERNAL_PATTERNS = [
     (re.compile(r'^@_ZNSt7__cxx111[89]basic_o?stringstream.*$'), x_noop),
     (re.compile(r'^@(_ZNSt8ios_base4Init[CD]1Ev|_ZNSo.*|_ZSt16__ostream_insert.*|_ZNSt8ios_baseD2Ev|_ZNSt6locale[CD]1Ev|_ZNSt9basic_iosIcSt11char_traitsIcEE.*|printf|fprintf|puts|fflush)$'), x_noop),
     (re.compile(r'^@_ZSt\d+__throw_.*'), x_throw_std),
+    # constructors / destructors of libstdc++ exception classes thrown by the libraries themselves (what() is never read)
+    (re.compile(r'^@_ZNSt(13runtime_error|11logic_error|12out_of_range|16invalid_argument|12domain_error|9exception)[CD][012]E.*$'), x_noop),
 ]
 import strmodels
 EXTERNAL_PATTERNS = strmodels.PATTERNS + EXTERNAL_PATTERNS
 Machine.ExecError = ExecError
+def x_rotational_angle(s, fr, ins, a):
+    """model of Avoid::rotationalAngle(Point) for symbolic points: the exact angle in degrees as a fresh real constrained by
+    quadrant and by its order relative to the diagonals 45/135/225/315 (the only values its callers compare it with).
+    For exact (integer/dyadic) coordinates below 2^20 the libm evaluation atan(y/x)*180/M_PI decides those comparisons
+    exactly like the exact angle does (ratios differ from +-1 by >= 2^-20, far above the rounding error; on the diagonals the
+    FP result is exactly 45/135/225/315) -- native replay of every path cross-checks this."""
+    p = a[0]
+    x = s.load(p, TFloat('double')); y = s.load(Ptr(p.obj, p.off + 8), TFloat('double'))
+    if isinstance(x, float) and isinstance(y, float):
+        if y == 0: return 180.0 if x < 0 else 0.0
+        if x == 0: return 270.0 if y < 0 else 90.0
+        ang = math.atan(y / x); ang = (ang * 180) / math.pi
+        if x < 0: ang += 180
+        elif y < 0: ang += 360
+        return ang
+    X = s.asF(x); Y = s.asF(y)
+    if X.err != 0 or Y.err != 0: raise ExecError('rotationalAngle of inexact symbolic point')
+    z = z3.RealVal(0)
+    if s.decide(SymB(Y.t == z)): return 180.0 if s.decide(SymB(X.t < z)) else 0.0
+    if s.decide(SymB(X.t == z)): return 270.0 if s.decide(SymB(Y.t < z)) else 90.0
+    xpos = s.decide(SymB(X.t > z)); ypos = s.decide(SymB(Y.t > z))
+    s.nfresh = getattr(s, 'nfresh', 0) + 1
+    ang = z3.Real('ang%d_%d' % (len(s.decisions), s.nfresh))
+    if xpos and ypos: lo, hi, d, below = 0, 90, 45, Y.t < X.t
+    elif (not xpos) and ypos: lo, hi, d, below = 90, 180, 135, Y.t > -X.t
+    elif (not xpos) and (not ypos): lo, hi, d, below = 180, 270, 225, Y.t > X.t
+    else: lo, hi, d, below = 270, 360, 315, -Y.t > X.t
+    eq = (Y.t == X.t) if d in (45, 225) else (Y.t == -X.t)
+    s.add_pc(z3.And(ang > lo, ang < hi, (ang < d) == below, (ang == d) == eq))
+    s.stats['rotational_angle_model'] += 1
+    return SymF(ang, Fraction(lo), Fraction(hi), None, Fraction(0))
+
 # defined functions whose bodies are replaced by stubs (formatting / logging is never the subject of a claim)
 OVERRIDE_PATTERNS = [
     # operator<<(std::ostream&, T const&) of the libraries' own types
     (re.compile(r'^@_ZN(4vpsc|5Avoid|4cola|8topology|7dialect)lsERSoRK.*'), lambda s, fr, ins, a: a[0]),
+    (re.compile(r'^@_ZN5Avoid15rotationalAngleERKNS_5PointE$'), x_rotational_angle),
 ]
 DEFAULT_ALIASES = {
     '@_ZSt18_Rb_tree_incrementPSt18_Rb_tree_node_base': '@__model_rb_increment',
@@ -1803,7 +1873,7 @@ def validate_path(M, exe):
         return 'mismatch:native exit code %d (%s)' % (rc, err.strip().splitlines()[-1] if err.strip() else '')
     nat = [(t, x) for (t, x) in out if t in ('D', 'I')]
     fails = [x for (t, x) in out if t == 'ASSERT-FAIL']
-    sym_fail = set(v[1] for v in M.violations if v[0] in ('assert', 'assert-band'))
+    sym_fail = set(v[1] for v in M.violations if v[0].startswith('assert'))
     for f_ in fails:
         if f_ not in sym_fail: return 'mismatch:native run fails CHECK "%s" that the symbolic path passed' % f_
     if len(nat) != len(M.outputs):
